@@ -82,14 +82,23 @@ TWO = {
     "identical-cells": (V("d"), B(">", V("t"), I(0)), V("d"), B(">", V("t"), I(0))),
     "chained": (V("d"), B(">", V("t"), I(0)), ("read", "m1"), B(">", V("s"), I(0))),
     "raw-enable-shared": (V("d"), V("t"), V("c"), V("t")),
+    # one named arithmetic result is the data of one cell and the (raw) enable of the other
+    "arith-data-and-enable": (V("dm"), B(">", V("t"), I(0)), V("c"), V("dm")),
+    "arith-enable-twice": (V("d"), V("dm"), V("c"), V("dm")),
+    "cmp-data-and-enable": (V("cm"), B(">", V("t"), I(0)), V("c"), V("cm")),
 }
+PRE = {"dm": ("decl", "Signal", "dm", B("*", V("d"), V("s"))), "cm": ("decl", "Signal", "cm", B(">", V("d"), I(0)))}
 
 
 def two_cell_cases(tier):
     out = []
     for tag, (v1, c1, v2, c2) in TWO.items():
         for explicit in (True, False):
-            body = []
+            used0 = set()
+            for e in (v1, c1, v2, c2):
+                gen.vars_in(e, used0)
+            pre = [PRE[n] for n in PRE if n in used0]
+            body = list(pre)
             for cell, v, c in (("m1", v1, c1), ("m2", v2, c2)):
                 if explicit:
                     body += [("mem", cell, "signal-M"), ("write", cell, ("proj", v, "signal-M"), c)]
@@ -97,11 +106,11 @@ def two_cell_cases(tier):
                     body += [("mem", cell, None), ("write", cell, v, c)]
             body += [("decl", "Signal", "p1", B("+", ("read", "m1"), I(1))), ("decl", "Signal", "p2", B("+", ("read", "m2"), I(2)))]
             used = set()
-            for e in (v1, c1, v2, c2):
+            for e in (v1, c1, v2, c2) + tuple(p[3] for p in pre):
                 gen.vars_in(e, used)
             inputs = [n for n in gen.INPUT_DECL if n in used]
             dom = {"d": [0, 1, 5], "c": [0, 2, 7], "t": [0, 1], "s": [0, 1]}
-            out.append({"family": "two-cells", "tag": tag, "explicit": explicit, "stmts": gen.prog_with_inputs(inputs, body),
+            out.append({"family": "two-cells", "tag": tag, "pre": pre, "explicit": explicit, "stmts": gen.prog_with_inputs(inputs, body),
                         "inputs": inputs, "domains": {i: dom[i] for i in inputs}, "outputs": ["p1", "p2"],
                         "exprs": [v1, c1, v2, c2], "opts": {"optimize": True}})
     return out
@@ -113,10 +122,12 @@ def run_two_cells(case):
     inputs = case["inputs"]
     decls = [gen.INPUT_DECL[i] for i in inputs]
 
+    pre = gen.thaw(case.get("pre") or [])
+
     def step(q, val):
         q1, q2 = q
         env = lang.Env(val)
-        lang.run(decls, env)
+        lang.run(decls + list(pre), env)
         env.mem_read = lambda m: lang.Sig(None, q1)       # cell 2 may read cell 1 (its previous settled value)
         n1 = lang.val(lang.ev(v1, env)) if lang.val(lang.ev(c1, env)) > 0 else q1
         env.mem_read = lambda m: lang.Sig(None, n1)
@@ -125,7 +136,7 @@ def run_two_cells(case):
 
     def types():
         env = lang.Env({i: 1 for i in inputs})
-        lang.run(decls, env)
+        lang.run(decls + list(gen.thaw(case.get("pre") or [])), env)
         env.mem_read = lambda m: lang.Sig(None, 0)
         t1 = "signal-M" if case["explicit"] else lang.ev(v1, env).type
         env.mem_read = lambda m: lang.Sig(t1, 0)
